@@ -158,8 +158,11 @@ pub trait Property: Sync {
     fn runs(&self, tier: Tier) -> u64;
     fn generate(&self, rng: &mut Rng, run: u64, tier: Tier) -> Self::Sc;
     fn execute(&self, sc: &Self::Sc, ctx: &mut Ctx) -> Outcome;
-    /// Smaller candidate scenarios (one step of shrinking).
-    fn shrink(&self, sc: &Self::Sc) -> Vec<Self::Sc>;
+    /// Offer smaller candidate scenarios one at a time (one step of
+    /// shrinking).  `emit` returns true when the candidate was accepted; the
+    /// implementation must then return at once.  Candidates are built lazily so
+    /// that shrinking a large scenario costs no more memory than the scenario.
+    fn shrink(&self, sc: &Self::Sc, emit: &mut dyn FnMut(Self::Sc) -> bool);
     /// Complete enumerations derived from one generated scenario (every single
     /// cut position, every error position, ...).  Empty when the scenario is
     /// too large or the run index is not selected for sweeping.
@@ -184,6 +187,8 @@ pub trait Property: Sync {
         json!({})
     }
 }
+
+static LAST_PANIC_GLOBAL: Mutex<(String, String)> = Mutex::new((String::new(), String::new()));
 
 thread_local! {
     static LAST_PANIC: RefCell<Option<(String, String)>> = const { RefCell::new(None) };
@@ -211,6 +216,9 @@ pub fn install_panic_hook() {
         } else {
             "<non-string panic>".to_string()
         };
+        if let Ok(mut g) = LAST_PANIC_GLOBAL.lock() {
+            *g = (loc.clone(), msg.clone());
+        }
         LAST_PANIC.with(|p| *p.borrow_mut() = Some((loc, msg)));
     }));
 }
@@ -222,7 +230,22 @@ fn panic_class(msg: &str) -> String {
     // "index 9 ..." are one class
     let mut out = String::new();
     let mut last_hash = false;
+    let mut quoted: Option<char> = None;
     for c in m.chars() {
+        // drop quoted payloads ('x', `text`) so that one defect is one class
+        if let Some(q) = quoted {
+            if c == q {
+                quoted = None;
+                out.push(c);
+            }
+            continue;
+        }
+        if c == '\'' || c == '`' {
+            quoted = Some(c);
+            out.push(c);
+            last_hash = false;
+            continue;
+        }
         if c.is_ascii_digit() {
             if !last_hash {
                 out.push('#');
@@ -455,22 +478,34 @@ fn record<P: Property>(
 pub fn minimise<P: Property>(p: &P, sc: &P::Sc, sig: &str, cap: usize) -> (P::Sc, usize) {
     let mut cur = sc.clone();
     let mut execs = 0usize;
-    'outer: loop {
-        let cands = p.shrink(&cur);
-        for c in cands {
-            if execs >= cap {
-                break 'outer;
+    let t = Instant::now();
+    loop {
+        let mut accepted: Option<P::Sc> = None;
+        let mut stop = false;
+        p.shrink(&cur, &mut |c| {
+            // bounded in executions and in wall time (the latter only bounds how
+            // small the reported scenario gets, never whether it is reported)
+            if execs >= cap || t.elapsed().as_secs() >= 60 {
+                stop = true;
+                return true;
             }
             execs += 1;
             let out = exec_one(p, &c, false);
             if let Err(v) = out.outcome {
                 if v.signature() == sig {
-                    cur = c;
-                    continue 'outer;
+                    accepted = Some(c);
+                    return true;
                 }
             }
+            false
+        });
+        match accepted {
+            Some(c) => cur = c,
+            None => break,
         }
-        break;
+        if stop {
+            break;
+        }
     }
     (cur, execs)
 }
@@ -530,6 +565,7 @@ pub fn run_batch<P: Property>(p: &P, opts: &Opts) -> BatchReport {
         .map(|_| (AtomicU64::new(0), AtomicU64::new(0), AtomicU64::new(0)))
         .collect();
     let done = std::sync::atomic::AtomicBool::new(false);
+    let worker_died = std::sync::atomic::AtomicBool::new(false);
     let hang_ms: u64 = std::env::var("PKGSIM_HANG_MS").ok().and_then(|s| s.parse().ok()).unwrap_or(3000);
     std::thread::scope(|s| {
         let mut handles = Vec::new();
@@ -627,10 +663,23 @@ pub fn run_batch<P: Property>(p: &P, opts: &Opts) -> BatchReport {
             }
         });
         for h in handles {
-            let _ = h.join();
+            if h.join().is_err() {
+                worker_died.store(true, Ordering::Release);
+            }
         }
         done.store(true, Ordering::Release);
     });
+    if worker_died.load(Ordering::Acquire) {
+        // a panic outside a run (scenario generation, sweep derivation, the
+        // harness itself): the batch is incomplete and nothing it says counts
+        let (loc, msg) = LAST_PANIC_GLOBAL.lock().map(|g| g.clone()).unwrap_or_default();
+        eprintln!("pkgsim: harness error: a worker thread died outside a run ({} {})", loc, msg);
+        return BatchReport {
+            new_violations: 0,
+            known_matched: 0,
+            harness_error: true,
+        };
+    }
     let accs = merged.into_inner().unwrap();
     // merge (all operations commutative, or resolved by lowest run index)
     let mut tot: Acc<P::Sc> = Acc::new();
@@ -665,6 +714,18 @@ pub fn run_batch<P: Property>(p: &P, opts: &Opts) -> BatchReport {
                 }
             }
         }
+    }
+    if tot.evaluations - tot.sweep_evaluations != runs {
+        eprintln!(
+            "pkgsim: harness error: {} runs were requested but {} were executed",
+            runs,
+            tot.evaluations - tot.sweep_evaluations
+        );
+        return BatchReport {
+            new_violations: 0,
+            known_matched: 0,
+            harness_error: true,
+        };
     }
     tot.samples.sort_by_key(|s| s.0);
     tot.samples.truncate(3);
@@ -1016,44 +1077,42 @@ pub fn replay<P: Property>(p: &P, file: &Path) -> Result<bool, String> {
 // Shrinking helpers
 // ---------------------------------------------------------------------------
 
-/// Candidate smaller vectors: empty, halves, block and single removals.
-pub fn shrink_vec<T: Clone>(v: &[T]) -> Vec<Vec<T>> {
+/// Candidate smaller vectors, built lazily: empty, halves, block and single
+/// removals.  Only the list of removal ranges is materialised.
+pub fn shrink_vec<T: Clone>(v: &[T]) -> impl Iterator<Item = Vec<T>> + '_ {
     let n = v.len();
-    let mut out = Vec::new();
-    if n == 0 {
-        return out;
+    let mut cuts: Vec<(usize, usize)> = Vec::new(); // remove [a, b)
+    if n > 0 {
+        cuts.push((0, n));
     }
-    out.push(Vec::new());
     if n >= 2 {
-        out.push(v[..n / 2].to_vec());
-        out.push(v[n / 2..].to_vec());
+        cuts.push((n / 2, n));
+        cuts.push((0, n / 2));
     }
     let mut block = n / 4;
     while block >= 2 {
         let mut i = 0;
         while i + block <= n {
-            let mut w = v[..i].to_vec();
-            w.extend_from_slice(&v[i + block..]);
-            out.push(w);
+            cuts.push((i, i + block));
             i += block;
         }
         block /= 2;
     }
     if n <= 64 {
         for i in 0..n {
-            let mut w = v.to_vec();
-            w.remove(i);
-            out.push(w);
+            cuts.push((i, i + 1));
         }
     } else {
-        // sample of single removals at both ends
         for i in (0..8).chain(n - 8..n) {
-            let mut w = v.to_vec();
-            w.remove(i);
-            out.push(w);
+            cuts.push((i, i + 1));
         }
     }
-    out
+    cuts.into_iter().map(move |(a, b)| {
+        let mut w = Vec::with_capacity(n - (b - a));
+        w.extend_from_slice(&v[..a]);
+        w.extend_from_slice(&v[b..]);
+        w
+    })
 }
 
 /// Candidate smaller numbers.
@@ -1254,19 +1313,26 @@ fn report_hang<P: Property>(p: &P, opts: &Opts, run: u64, sub: u64, sc: &P::Sc, 
     let mut accepted: Vec<P::Sc> = Vec::new();
     let mut execs = 0usize;
     let step_ms = (hang_ms / 3).max(300);
-    'outer: while t.elapsed().as_secs() < 180 {
-        for c in p.shrink(&cur) {
+    while t.elapsed().as_secs() < 180 {
+        let mut got: Option<P::Sc> = None;
+        p.shrink(&cur, &mut |c| {
             if t.elapsed().as_secs() >= 180 {
-                break 'outer;
+                return true;
             }
             execs += 1;
             if let ChildRes::TimedOut = exec_in_child(p, &c, std::time::Duration::from_millis(step_ms)) {
+                got = Some(c);
+                return true;
+            }
+            false
+        });
+        match got {
+            Some(c) => {
                 cur = c;
                 accepted.push(cur.clone());
-                continue 'outer;
             }
+            None => break,
         }
-        break;
     }
     // the reported scenario must still exceed the full confirmation budget:
     // walk back through the accepted shrink steps until one does
